@@ -242,6 +242,40 @@ def coq_check_property_file(pid, timeout=1800):
     return res
 
 
+COQCHK_ALLOW_PREFIXES = (
+    "Coq.Floats.FloatAxioms.", "Coq.Floats.PrimFloat.", "Coq.Floats.FloatOps.", "Coq.Numbers.Cyclic.Int63.",
+    "Coq.Reals.", "Coq.Logic.Classical", "Coq.Logic.FunctionalExtensionality.", "Coq.Logic.Eqdep.",
+    "Coq.Logic.JMeq.", "Coq.Logic.ProofIrrelevance.", "Coq.Logic.ClassicalEpsilon.", "Coq.Logic.Epsilon.",
+    "Coq.Logic.ChoiceFacts.", "Coq.Logic.Description", "Coq.Logic.IndefiniteDescription", "Coq.Array.PrimArray.",
+    "Coq.Strings.PrimString.")
+
+
+def coq_chk(pid, timeout=1800):
+    """Independent re-check (coqchk) of Properties/<pid>.vo and everything it depends on; the axioms
+    it reports must all be standard-library ones, and no kernel check may be switched off."""
+    rc, out, err, dt = sh(["coqchk", "-silent", "-o", "-Q", ".", "V", f"V.Properties.{pid}"], cwd=COQ, timeout=timeout)
+    res = {"cmd": f"coqchk -silent -o -Q . V V.Properties.{pid}", "wall_s": round(dt, 1), "errors": [], "axioms": []}
+    text = out + err
+    if rc != 0:
+        res["errors"].append("coqchk failed: " + text[-1500:])
+        return res
+    m = re.search(r"\* Axioms:(.*?)\n\s*\n\* Constants/Inductives relying on type-in-type:(.*?)\n\s*\n"
+                  r"\* Constants/Inductives relying on unsafe \(co\)fixpoints:(.*?)\n\s*\n"
+                  r"\* Inductives whose positivity is assumed:(.*?)(?:\n\s*\n|$)", text, flags=re.S)
+    if not m:
+        res["errors"].append("unparsable coqchk summary: " + text[-800:])
+        return res
+    axioms = [a.strip() for a in m.group(1).split("\n") if a.strip() and a.strip() != "<none>"]
+    res["axioms"] = axioms
+    bad = [a for a in axioms if not a.startswith(COQCHK_ALLOW_PREFIXES)]
+    if bad:
+        res["errors"].append("coqchk reports axioms outside the standard library: " + ", ".join(bad))
+    for name, grp in (("type-in-type", 2), ("unsafe fixpoints", 3), ("assumed positivity", 4)):
+        if m.group(grp).strip() != "<none>":
+            res["errors"].append(f"coqchk: {name}: {m.group(grp).strip()[:300]}")
+    return res
+
+
 def coq_eval(pid, shards, header, timeout=1500):
     """shards: list of strings (Coq source bodies, each ending in `Eval vm_compute in ...`).
     Runs them in parallel; returns list of (stdout, error-or-None)."""
@@ -461,6 +495,12 @@ class Check:
         self.cov["forbidden_scan"] = "clean" if not bad else bad
         if res["errors"]:
             self.broken_obligation("coq", "\n".join(res["errors"]), res)
+        elif self.tier == "thorough":
+            chk = coq_chk(self.pid)
+            self.cov["coqchk"] = {"cmd": chk["cmd"], "wall_s": chk["wall_s"], "axioms_reported": len(chk["axioms"]),
+                                  "all_standard_library": not chk["errors"]}
+            if chk["errors"]:
+                self.broken_obligation("coqchk", "\n".join(chk["errors"]), chk)
         return res
 
     # -- bookkeeping
